@@ -179,12 +179,25 @@ def resolveBindsM (st : StructTable) (self sib : RBMap) (ins : List Param) (c : 
        else ⟨filterR st p.ty (resolveRefs self sib b.exp), p.ty⟩
      | none => ⟨.lit .null, p.ty⟩)
 
-/-- the index set of the call: that of its first split input (`unifyMapSources`: all sources
-must agree) -/
-def splitIndicesOf : RBMap → Option (Bool × List Idx)
-  | [] => none
-  | (_, ⟨.split _ _ e, _⟩) :: _ => staticIndices e
-  | _ :: r => splitIndicesOf r
+/-- the first parameter of the callee that the call binds with `split` -/
+def splitParam (ins : List Param) (c : Call) : Option Param :=
+  ins.find? fun p =>
+    match c.binds.find? (fun b => b.param == p.name) with
+    | some b => b.split
+    | none => false
+
+/-- the index set of the call: that of its first split input, if statically known
+(`unifyMapSources`: all sources must agree) -/
+def callIndicesR (st : StructTable) (self sib : RBMap) (ins : List Param) (c : Call) :
+    Option (Bool × List Idx) :=
+  match splitParam ins c with
+  | none => none
+  | some p =>
+    match c.binds.find? (fun b => b.param == p.name) with
+    | some b =>
+      staticIndices (filterR st (liftSplitTy (isMapLit (resolveRefs self sib b.exp)) p.ty)
+        (resolveRefs self sib b.exp))
+    | none => none
 
 /-- the resolved outputs of a call mapped over a collection of known size: the merge over the call
 unrolled (`MergeExp.BindingPath` with `KnownLength`): one copy of the callee's outputs per
@@ -203,7 +216,7 @@ def staticCalls (st : StructTable) (insOf : String → List Param)
     if c.mapped then
       let cins := resolveBindsM st self sib (insOf c.callee) c
       let r := node c.callee (path ++ [c.id]) cins
-      let ixs := (splitIndicesOf cins).getD (false, [])
+      let ixs := (callIndicesR st self sib (insOf c.callee) c).getD (false, [])
       staticCalls st insOf node path self cs (sib ++ [(c.id, unrolledOutputs c ixs r.1.exp)])
         (acc ++ r.2.map fun n => { n with forks := (c.id, ixs.2) :: n.forks })
     else
